@@ -198,7 +198,11 @@ func Open(prop, sig string) bool { return Known(prop, sig) }
 
 func saveReplay(check string, caseJSON []byte, v *Violation) string {
 	prop := PropOf(check)
-	dir := filepath.Join(VerifDir(), "replays", prop)
+	base := os.Getenv("VERIF_REPLAYS")
+	if base == "" {
+		base = filepath.Join(VerifDir(), "replays")
+	}
+	dir := filepath.Join(base, prop)
 	os.MkdirAll(dir, 0o755)
 	name := strings.Map(func(r rune) rune {
 		if r == '/' || r == ' ' {
